@@ -129,7 +129,12 @@ pub fn has_adjacent_text_siblings(src: &str) -> bool {
 }
 
 pub fn file_tag(src0: &str) -> Option<String> {
-    if has_adjacent_text_siblings(src0) {
+    file_tag_with(src0, false)
+}
+
+/// `skip_f3`: look for the lone-literal pattern (C14-F2) only
+pub fn file_tag_with(src0: &str, skip_f3: bool) -> Option<String> {
+    if !skip_f3 && has_adjacent_text_siblings(src0) {
         return Some("text-comment-text-printed-adjacent".to_string());
     }
     // entity spellings of `{` count as `{` (same length is not needed: only patterns are searched)
@@ -153,7 +158,7 @@ pub fn file_tag(src0: &str) -> Option<String> {
                 }
             }
             let after_is_text = j < b.len() && b[j] != b'<';
-            if comments > 0 && before_is_text && after_is_text {
+            if comments > 0 && before_is_text && after_is_text && !skip_f3 {
                 return Some("text-comment-text-printed-adjacent".to_string());
             }
             if comments > 0 {
@@ -218,6 +223,52 @@ pub fn file_tag(src0: &str) -> Option<String> {
         }
     }
     None
+}
+
+/// The listed finding C14-F2 as a transformation of the generator's model: every value that is exactly one binding of a
+/// string literal (possibly inside redundant parentheses) becomes static text. A re-printed template that behaves like
+/// THIS template deviates from the source by the listed finding only.
+pub fn staticise_lone_literals(g: &crate::model::wxml::Group) -> Option<crate::model::wxml::Group> {
+    fn lone(v: &Value) -> Option<String> {
+        let mut e = v.as_object().filter(|o| o.len() == 1)?.get("Bind")?;
+        loop {
+            let o = e.as_object().filter(|o| o.len() == 1)?;
+            if let Some(s) = o.get("Str") {
+                return s.as_str().map(|s| s.to_string());
+            }
+            e = o.get("Paren")?;
+        }
+    }
+    fn walk(v: &mut Value) {
+        match v {
+            Value::Object(o) => {
+                for (k, x) in o.iter_mut() {
+                    if k == "Text" {
+                        if let Some(a) = x.as_array_mut() {
+                            if a.len() == 1 {
+                                if let Some(s) = lone(&a[0]) {
+                                    a[0] = json!({"Lit": s});
+                                }
+                            }
+                        }
+                    } else if let Some(s) = lone(x) {
+                        *x = json!({"Static": s});
+                        continue;
+                    }
+                    walk(x);
+                }
+            }
+            Value::Array(a) => {
+                for x in a.iter_mut() {
+                    walk(x);
+                }
+            }
+            _ => {}
+        }
+    }
+    let mut v = serde_json::to_value(g).ok()?;
+    walk(&mut v);
+    serde_json::from_value(v).ok()
 }
 
 pub fn sources(c: &Case) -> Vec<(String, String)> {
@@ -317,8 +368,35 @@ pub fn eval_case(w: &mut Worker, c: &Case) -> Result<Outcome, String> {
             // attributes are not renamed (pinned by the tests for_scope / for_if_scope / slot_value_ref_scope)
             let tag = if c.mangling && s1s.iter().any(|(_, s)| s.contains("_$")) {
                 Some("mangled-scope-names-undeclared".to_string())
-            } else if let Some(t) = src.iter().find_map(|(_, t)| file_tag(t)) {
+            } else if let Some(t) = src.iter().find_map(|(_, t)| file_tag(t).filter(|x| x != "lone-string-literal-binding-printed-static")) {
+                // C14-F3 (text, comment, text) somewhere in the group
                 Some(t)
+            } else if let Some(t) = src.iter().find_map(|(_, t)| file_tag_with(t, true)) {
+                // C14-F2 is narrowed wherever the generator's model is at hand: the printed template must behave like the
+                // source with its lone literals made static — a deviation beyond that is not the listed finding
+                if t == "lone-string-literal-binding-printed-static" && c.raw_entry.is_none() && c.mutations.is_empty() {
+                    let same = staticise_lone_literals(&c.group).and_then(|g2| {
+                        let src2 = crate::compile::print_group(&g2, c.style);
+                        let b2 = bundle_of(&src2).ok()?;
+                        let req = json!({"kind":"equiv","bundleA":b2,"bundleB":bb,"entry":"p","histories":histories});
+                        let resp = w.request(&req).ok()?;
+                        if resp.get("error").is_some() || resp.get("errorB").is_some() {
+                            return None;
+                        }
+                        Some(resp["results"].as_array().map(|rs| rs.iter().all(|r| r["mismatches"].as_array().map(|m| m.is_empty()).unwrap_or(true))).unwrap_or(false))
+                    });
+                    if std::env::var("GEV_DEBUG_F2").is_ok() {
+                        eprintln!("F2 narrowing: same={:?} staticised={:?}", same, staticise_lone_literals(&c.group).map(|g2| crate::compile::print_group(&g2, c.style)));
+                    }
+                    if same == Some(true) {
+                        Some(t)
+                    } else {
+                        out.labels.push("lone-literal-source-but-other-deviation".into());
+                        None
+                    }
+                } else {
+                    Some(t)
+                }
             } else if m.ch == "p" && m.actual == "<absent>" && m.expected.starts_with('"') {
                 // listed finding C14-F2: a lone string-literal binding is printed as static text:
                 // `change:x="{{ 'literal' }}"` is printed as the static `change:x="literal"`, which
